@@ -18,6 +18,8 @@ pub struct Gen {
     /// did the generated script contain at least one "non-trivial" event for its profile
     pub nontrivial: bool,
     pub rejected: u64,
+    /// why the model declined candidate statements (generation stops at the first one)
+    pub declined: Vec<String>,
 }
 
 impl Drop for Gen {
@@ -44,6 +46,7 @@ impl Gen {
             kinds: Vec::new(),
             nontrivial: false,
             rejected: 0,
+            declined: Vec::new(),
         }
     }
 
@@ -122,10 +125,14 @@ impl Gen {
                 // the script (generation stops); keep it rare
                 self.model.out_budget = saved_budget;
                 self.rejected += 1;
+                self.declined.push(m.chars().take(70).collect());
+                self.kinds.push("generation-stopped:model-declined".to_string());
                 Err(m)
             }
             Err(Ctl::Fuel) => {
                 self.rejected += 1;
+                self.declined.push("model step budget".to_string());
+                self.kinds.push("generation-stopped:model-step-budget".to_string());
                 Err("model fuel".to_string())
             }
             r => {
